@@ -409,6 +409,74 @@ static Verdict runPayload(const Case& c, Info& info, P srcInit, P dstInit, int p
     bool ab = src == other, ba = other == src;
     VF_CHECK(ab == ba, "payload equality is not symmetric");
     VF_CHECK(ab == (psnap(other) == before), "payload a == b is " << ab << " but type / length / bytes comparison says " << (psnap(other) == before));
+    // equality over an object's life: an object that was compared, then rewritten through the class's own data setter until its bytes
+    // equal the other side's, must compare equal (and the other way round) - whatever equality remembers about an object must follow
+    // every way of changing it
+    if constexpr (std::is_same_v<P, lib::CaptureModulePayload> || std::is_same_v<P, lib::InterfacePayload>)
+    {
+        if (pcCls >= 0 && classValidates(static_cast<uint8_t>(pcCls), src.getRawPayload(), src.getLength()))
+        {
+            P x(src);
+            bool changed = false;
+            static const uint8_t dummy = 0;
+            if constexpr (std::is_same_v<P, lib::CaptureModulePayload>)
+            {
+                std::string s0(src.getDeviceDescription()), s1(src.getSerialNumber()), s2(src.getHardwareVersion()), s3(src.getSoftwareVersion());
+                Bytes v(src.getVendorData() ? src.getVendorData() : &dummy, (src.getVendorData() ? src.getVendorData() : &dummy) + src.getVendorDataLength());
+                std::string t1 = s1;
+                Bytes w = v;
+                if (!t1.empty())
+                {
+                    t1[0] = static_cast<char>(t1[0] == 'x' ? 'y' : 'x');
+                    changed = true;
+                }
+                else if (!w.empty())
+                {
+                    w[0] ^= 0x55;
+                    changed = true;
+                }
+                if (changed)
+                {
+                    x.setData(s0, t1, s2, s3, w);
+                    bool e1 = x == src, e2 = src == x;
+                    VF_CHECK(e1 == e2 && e1 == (psnap(x) == before), "equality of a payload rewritten through setData (other content of the same lengths) is " << e1
+                                                                         << ", type / length / bytes comparison says " << (psnap(x) == before));
+                    x.setData(s0, s1, s2, s3, v);
+                }
+            }
+            else
+            {
+                Bytes ids(src.getStreamIds() ? src.getStreamIds() : &dummy, (src.getStreamIds() ? src.getStreamIds() : &dummy) + src.getStreamIdsCount());
+                Bytes v(src.getVendorData() ? src.getVendorData() : &dummy, (src.getVendorData() ? src.getVendorData() : &dummy) + src.getVendorDataLength());
+                Bytes ids2 = ids, w = v;
+                if (!ids2.empty())
+                {
+                    ids2[0] ^= 0x55;
+                    changed = true;
+                }
+                else if (!w.empty())
+                {
+                    w[0] ^= 0x55;
+                    changed = true;
+                }
+                if (changed)
+                {
+                    x.setData(ids2.empty() ? &dummy : ids2.data(), static_cast<uint16_t>(ids2.size()), w.empty() ? &dummy : w.data(), static_cast<uint16_t>(w.size()));
+                    bool e1 = x == src, e2 = src == x;
+                    VF_CHECK(e1 == e2 && e1 == (psnap(x) == before), "equality of a payload rewritten through setData (other content of the same lengths) is " << e1
+                                                                         << ", type / length / bytes comparison says " << (psnap(x) == before));
+                    x.setData(ids.empty() ? &dummy : ids.data(), static_cast<uint16_t>(ids.size()), v.empty() ? &dummy : v.data(), static_cast<uint16_t>(v.size()));
+                }
+            }
+            if (changed)
+            {
+                bool e1 = x == src, e2 = src == x;
+                VF_CHECK(e1 == e2 && e1 == (psnap(x) == before), "after a compared payload was rewritten through setData to the content of the other side, equality is "
+                                                                     << e1 << ", type / length / bytes comparison says " << (psnap(x) == before));
+                info.tag("compared_then_rewritten_through_setData_then_compared");
+            }
+        }
+    }
     std::unique_ptr<P> made;
     P* res = nullptr;
     switch (c.op)
